@@ -13,8 +13,55 @@ MCX = 'dashlive/server/requesthandler/manifest_context.py'
 MRQ = 'dashlive/server/requesthandler/media_requests.py'
 
 
+def build_get(i, init=False):
+    import logging
+    g = lambda k: int(i[k])
+    stream = NS(pk=g('stream_pk'))
+    period = None if i['period_missing'] else NS(parent_pk=g('period_parent_pk'), stream=stream, pk=g('ppk'))
+    seen = {}
+
+    def media_get(stream_pk=None, name=None):
+        return None if i['media_missing'] else NS(stream_pk=stream_pk, name=name)
+
+    def calc(mode, args, stream_):
+        if i['bad_options']:
+            raise ValueError('bad option')
+        return NS(for_stream=stream_)
+
+    def generate(**kw):
+        return flask.make_response(('ok', 200, {'X-Generated': '1'})), kw
+    app = flask.Flask('replay')
+    fn = extract_method(MRQ, 'ServeMpsInitSeg' if init else 'ServeMpsMedia', 'get', {
+        'flask': flask, 'logging': logging, 'current_mps': NS(pk=g('mps_pk')),
+        'models': NS(Period=NS(get=lambda pk=None: period), MediaFile=NS(get=media_get))})
+    me = NS(calculate_options=calc)
+    me.generate_media_segment = lambda **kw: seen.update(kw=kw, g_period=flask.g.period, g_stream=flask.g.stream) or flask.make_response(('ok', 200))
+    env = {k: g(k) for k in ('ppk', 'mps_pk', 'period_parent_pk', 'stream_pk', 'seg_num')}
+    env.update({k: bool(i[k]) for k in ('period_missing', 'bad_options', 'media_missing')})
+
+    me.generate_init_segment = lambda media, mode, options: seen.update(init=(media, mode, options)) or flask.make_response(('ok', 200))
+
+    def call_init():
+        with app.test_request_context('/x'):
+            r = fn(me, 'vod', 'mps', g('ppk'), 'file', 'mp4')
+            media, mode, options = seen.get('init', (None, None, None))
+            return NS(status=r.status_code, media=media, mode=mode, options=options)
+    if init:
+        return {'env': env, 'old_env': dict(env), 'call': call_init}
+
+    def call():
+        with app.test_request_context('/x'):
+            r = fn(me, 'vod', 'mps', g('ppk'), 'file', 'mp4', g('seg_num'), None)
+            return NS(status=r.status_code, generated_for=seen.get('kw'), g_period=seen.get('g_period'), g_stream=seen.get('g_stream'))
+    return {'env': env, 'old_env': dict(env), 'call': call}
+
+
 def build(key, variant, i):
     qual = key.split(':')[1]
+    if qual == 'ServeMpsMedia.get':
+        return build_get(i)
+    if qual == 'ServeMpsInitSeg.get':
+        return build_get(i, init=True)
     if qual == 'MediaRequestBase.generate_media_segment':
         from contracts.rep_native import build_gms
         kind = variant.split('-')[1]
